@@ -291,32 +291,36 @@ def concrete_playback(work: str, cfg: dict, harness: str, env: dict) -> dict:
                '--concrete-playback=inplace', '--target-dir', CACHE_TARGET, '--output-format', 'terse', '--harness', harness]
         p = subprocess.run(cmd, cwd=work, env=env, capture_output=True, text=True, timeout=1500)
         out = p.stdout + p.stderr
-        m = None
-        # the generated unit test now sits in the scratch copy's source file
-        test_src = ''
+        # the generated unit tests now sit in the scratch copy's source file: one per failed check AND one per satisfied
+        # cover; a cover's test is not a counterexample, so tests generated for anything but a cover come first
+        cands = []
         for tgt in cfg.get('target', []):
             txt = open(os.path.join(work, tgt['file'])).read()
-            mm = re.search(r'#\[test\]\s*fn (kani_concrete_playback_' + re.escape(harness) + r'_\w+)\(\) \{.*?\n\}', txt, re.S)
-            if mm:
-                test_src = mm.group(0)
-                m = mm
-        if not m:
+            for mm in re.finditer(r'(///[^\n]*\n\s*)*#\[test\]\s*fn (kani_concrete_playback_' + re.escape(harness) + r'_\w+)\(\) \{.*?concrete_playback_run\([^)]*\);\s*\}', txt, re.S):
+                block = mm.group(0)
+                is_cover = bool(re.search(r'Check for `cover`', block))
+                cands.append((is_cover, mm.group(2), block))
+        if not cands:
             info['reason'] = 'kani produced no concrete playback test'
             return info
-        tname = m.group(1)
-        info['input'] = 'concrete values chosen by CBMC (bytes per kani::any()): ' + re.sub(r'\s+', ' ', test_src)[:1500]
-        cmd2 = ['cargo', 'kani', 'playback', '-Z', 'concrete-playback', '-p', cfg['crate'], '--', tname]
+        cands.sort(key=lambda c: c[0])
         env2 = dict(env, CARGO_TARGET_DIR=os.path.join(CACHE_TARGET, 'playback'))
-        p2 = subprocess.run(cmd2, cwd=work, env=env2, capture_output=True, text=True, timeout=2400)
-        out2 = p2.stdout + p2.stderr
-        info['cmd'] = ' '.join(cmd2)
-        if re.search(r'test result: FAILED|panicked at|error: test failed', out2):
-            info['found'] = True
-            pm = re.search(r"panicked at ([^\n]*)\n([^\n]*)", out2)
-            info['observed'] = ('the real function, run natively on these values, fails: ' + (pm.group(0) if pm else 'test FAILED'))[:600]
-            info['required'] = 'the harness assertions (see clause)'
-        else:
-            info['reason'] = 'playback test did not fail natively: ' + out2[-400:]
+        last = ''
+        for is_cover, tname, block in cands[:4]:
+            cmd2 = ['cargo', 'kani', 'playback', '-Z', 'concrete-playback', '-p', cfg['crate'], '--', tname]
+            p2 = subprocess.run(cmd2, cwd=work, env=env2, capture_output=True, text=True, timeout=2400)
+            out2 = p2.stdout + p2.stderr
+            last = out2
+            info['cmd'] = ' '.join(cmd2)
+            if re.search(r'test result: FAILED|panicked at|error: test failed', out2):
+                info['found'] = True
+                info['input'] = 'concrete values chosen by CBMC (bytes per kani::any()): ' + re.sub(r'\s+', ' ', block)[:1500]
+                pm = re.search(r"panicked at ([^\n]*)\n([^\n]*)", out2)
+                info['observed'] = ('the real function, run natively on these values, fails: ' + (pm.group(0) if pm else 'test FAILED'))[:600]
+                info['required'] = 'the harness assertions (see clause)'
+                return info
+        info['input'] = 'concrete values chosen by CBMC (bytes per kani::any()): ' + re.sub(r'\s+', ' ', cands[0][2])[:1500]
+        info['reason'] = 'no playback test failed natively: ' + last[-400:]
         return info
     except Exception as e:  # noqa
         info['reason'] = f'playback error: {e}'
